@@ -539,6 +539,8 @@ func main() {
 	}
 	// member names with equal FNV-32a, Unicode / byte-pattern classes of names (legs3.go)
 	nameLegs(r)
+	// the empty member name, members whose own replicas collide, members colliding with replicas of "" (legs4.go)
+	collisionLegs(r)
 	if r.Search {
 		if r.Failed() {
 			r.Note("search legs not run: the thorough generators already produced a failing input")
